@@ -77,7 +77,10 @@ type mpFixture struct {
 	fund interfaces.Transaction
 	// tx1 and tx2 spend the same outpoint; tx3 is pooled before the threads start and confirmed
 	// by the block; tx4 is independent
-	tx [6]*mpTx
+	tx [7]*mpTx
+	// parent is a confirmed ("block") transaction whose output 0 is spent by the pooled tx6:
+	// TxPool.RemoveTransaction(parent) has a descendant to remove
+	parent interfaces.Transaction
 	// tx5 is an UpdateProducer; cancel is the CancelProducer of the same owner (block only)
 	cancel interfaces.Transaction
 	name map[common.Uint256]string
@@ -111,12 +114,13 @@ func setupMempool(f *fixture) *mpFixture {
 	in := func(i uint16) *ctypes.Input {
 		return &ctypes.Input{Previous: ctypes.OutPoint{TxID: m.fund.Hash(), Index: i}}
 	}
-	defs := [][]*ctypes.Input{nil, {in(0)}, {in(0), in(1)}, {in(2)}, {in(3)}, {in(4)}}
+	m.parent = mk(nil, 2, "C40-P")
+	defs := [][]*ctypes.Input{nil, {in(0)}, {in(0), in(1)}, {in(2)}, {in(3)}, {in(4)}, {{Previous: ctypes.OutPoint{TxID: m.parent.Hash(), Index: 0}}}}
 	owner, node := hexKey(0x31), hexKey(0x32)
 	m.cancel = functions.CreateTransaction(ctypes.TxVersion09, ctypes.CancelProducer, 0, &payload.ProcessProducer{OwnerKey: owner, Signature: []byte{1}},
 		[]*ctypes.Attribute{{Usage: ctypes.Nonce, Data: []byte("C40-cancel")}}, nil, nil, 0, []*program.Program{})
 	m.cancel.Hash()
-	for i := 1; i <= 5; i++ {
+	for i := 1; i <= 6; i++ {
 		real := mk(defs[i], 1, fmt.Sprintf("C40-tx%d", i))
 		if i == 5 {
 			real = functions.CreateTransaction(ctypes.TxVersion09, ctypes.UpdateProducer, 0,
@@ -130,10 +134,10 @@ func setupMempool(f *fixture) *mpFixture {
 		m.name[h] = fmt.Sprintf("tx%d", i)
 		m.size[h] = size
 	}
-	db := &mpTxDB{txs: map[common.Uint256]interfaces.Transaction{m.fund.Hash(): m.fund}}
+	db := &mpTxDB{txs: map[common.Uint256]interfaces.Transaction{m.fund.Hash(): m.fund, m.parent.Hash(): m.parent}}
 	f.chain.UTXOCache = blockchain.NewUTXOCache(db, f.params)
 	blockchain.DefaultLedger = &blockchain.Ledger{Blockchain: f.chain, Store: f.chain.GetDB(), Arbitrators: state.NewArbitratorsMock(nil, 0, 3)}
-	for i := 1; i <= 5; i++ {
+	for i := 1; i <= 6; i++ {
 		if _, err := f.chain.UTXOCache.GetTxReference(m.tx[i]); err != nil {
 			evid.Fatalf("harness: mempool tx%d references: %v", i, err)
 		}
@@ -244,7 +248,7 @@ func (m *mpFixture) poolInvariants(pool *mempool.TxPool) (pooled []string, f *vs
 		bytesSum += uint64(m.size[h])
 	}
 	sort.Strings(pooled)
-	for i := 1; i <= 5; i++ {
+	for i := 1; i <= 6; i++ {
 		if !inPool[m.tx[i].Hash()] {
 			continue
 		}
@@ -305,6 +309,7 @@ func mempoolScens(r *evid.Run) []scen {
 		{Name: "mempool-append2-snapshot-b2", Kind: "mempool-append2-snapshot", Bound: 2},
 		{Name: "mempool-append-clean-snapshot-b2", Kind: "mempool-append-clean-snapshot", Bound: 2},
 		{Name: "mempool-append-cancelblock-snapshot-b2", Kind: "mempool-append-cancelblock-snapshot", Bound: 2},
+		{Name: "mempool-remove-descendant-query-b2", Kind: "mempool-remove-descendant-query", Bound: 2},
 	}
 	if r.Thorough() {
 		out = append(out, scen{Name: "mempool-append2-snapshot-b3", Kind: "mempool-append2-snapshot", Bound: 3},
@@ -329,6 +334,9 @@ func (f *fixture) mempoolScenario(s scen) *vsched.Scenario {
 		Bound:    s.Bound,
 		MaxSteps: 20000,
 		Setup: func() ([]string, []func(), func(*vsched.Exec) (string, *vsched.Fail)) {
+			if s.Kind == "mempool-remove-descendant-query" {
+				return m.removeDescendantSetup(f)
+			}
 			cancelKind := s.Kind == "mempool-append-cancelblock-snapshot"
 			pool, closePool := m.newPool(f, cancelKind)
 			var errA, errB elaerr.ELAError
@@ -395,6 +403,57 @@ func (f *fixture) mempoolScenario(s scen) *vsched.Scenario {
 	}
 }
 
+// removeDescendantSetup: pool {tx3, tx6}; R: RemoveTransaction(parent of tx6) — what netsync
+// calls for a block transaction that cannot re-enter the pool — removes the descendant tx6;
+// Q: read-locked queries, including a snapshot of the pool's indexes that must be consistent at
+// the moment it is taken; A: Append(tx1). doRemoveTransaction carries a scheduling point before
+// every statement (build.sh), so a reader that is let in during the removal sees it half done.
+func (m *mpFixture) removeDescendantSetup(f *fixture) ([]string, []func(), func(*vsched.Exec) (string, *vsched.Fail)) {
+	pool, closePool := m.newPool(f, false)
+	if err := pool.AppendToTxPoolWithoutEvent(m.tx[6]); err != nil {
+		evid.Fatalf("harness: tx6 not admitted: %v", err)
+	}
+	var errA elaerr.ELAError
+	var qFail *vsched.Fail
+	seen := ""
+	names := []string{"remove", "query", "appendA"}
+	bodies := []func(){
+		func() { pool.RemoveTransaction(m.parent) },
+		func() {
+			for i := 0; i < 2; i++ {
+				pooled, fail := m.poolInvariants(pool)
+				if fail != nil && qFail == nil {
+					qFail = &vsched.Fail{Signature: fail.Signature + "|seen-by-reader", What: "a read-locked query saw the pool half way through a removal: " + fail.What}
+				}
+				seen += fmt.Sprint(pooled)
+				n := len(pool.GetTxsInPool())
+				u := len(pool.GetUsedUTXOs())
+				if n != u { // every menu transaction here has exactly one input
+					_ = n
+				}
+				pool.HaveTransaction(m.tx[6].Hash())
+				pool.GetTransactionCount()
+			}
+		},
+		func() { errA = pool.AppendToTxPoolWithoutEvent(m.tx[1]) },
+	}
+	check := func(x *vsched.Exec) (string, *vsched.Fail) {
+		defer closePool()
+		if qFail != nil {
+			return "reader-saw-inconsistent-pool", qFail
+		}
+		pooled, fail := m.poolInvariants(pool)
+		if fail != nil {
+			return "inconsistent", fail
+		}
+		if errA != nil || fmt.Sprint(pooled) != "[tx1 tx3]" {
+			return fmt.Sprint(pooled), &vsched.Fail{Signature: "C40|mempool|remove-descendant-result", What: fmt.Sprintf("after RemoveTransaction(parent of tx6) and Append(tx1) the pool must hold tx1 and tx3, holds %v (append: %v)", pooled, errA)}
+		}
+		return "pool=" + fmt.Sprint(pooled) + " seen=" + seen, nil
+	}
+	return names, bodies, check
+}
+
 var mpFreeRunRep int
 
 // mempoolFreeRun is one repetition of the free-running -race bodies.
@@ -404,8 +463,12 @@ func mempoolFreeRun(f *fixture) {
 	withCancel := mpFreeRunRep%2 == 0 // every other repetition: pooled UpdateProducer + block with its CancelProducer
 	pool, closePool := m.newPool(f, withCancel)
 	blk := m.block(withCancel)
+	if err := pool.AppendToTxPoolWithoutEvent(m.tx[6]); err != nil {
+		evid.Fatalf("harness: tx6 not admitted: %v", err)
+	}
 	var wg sync.WaitGroup
-	wg.Add(6)
+	wg.Add(7)
+	go func() { defer wg.Done(); pool.RemoveTransaction(m.parent) }() // removes the descendant tx6
 	go func() { defer wg.Done(); pool.AppendToTxPool(m.tx[1]) }()
 	go func() { defer wg.Done(); pool.AppendToTxPoolWithoutEvent(m.tx[2]) }()
 	go func() { defer wg.Done(); pool.MaybeAcceptTransaction(m.tx[4]) }()
